@@ -19,7 +19,7 @@ GEN = ['hidc.codegen.generator.CodeGen.gen_stmts', 'hidc.codegen.generator.CodeG
 
 
 def props(unchecked, c02=False):
-    sim = ('C01',) + (('C15',) if unchecked else ()) + (('C02',) if c02 else ())
+    sim = ('C01', 'C09') + (('C15',) if unchecked else ()) + (('C02',) if c02 else ())
     return {'SIM': sim + ('C08',), 'INV': ('C08',), 'NOBOT': ('C03',), 'SAFE': ('C04',), 'NOERR': ('C10',)}
 
 
@@ -50,7 +50,12 @@ def run_decl(w, unchecked):
               ('byte-from-int-glob', Y, lambda L: ast.IntToByte(L.glob('e', I))),
               ('bool-from-cmp', B, lambda L: ast.Lt(None, L.opaque('a'), L.opaque('b'))),
               ('bool-from-int', B, lambda L: ast.IntToBool(L.opaque('e', I))),
-              ('int-sum', I, lambda L: ast.Add(None, L.opaque('a'), L.local('b')))]
+              ('int-sum', I, lambda L: ast.Add(None, L.opaque('a'), L.local('b'))),
+              # narrow-then-widen chains in a push position (`int y = (a + b) is byte;`)
+              ('int-from-narrowed-sum', I, lambda L: ast.ByteToInt(ast.IntToByte(ast.Add(None, L.opaque('a'), L.opaque('b'))))),
+              ('int-from-narrowed-glob', I, lambda L: ast.ByteToInt(ast.IntToByte(L.glob('g', I)))),
+              ('int-from-narrowed-opaque', I, lambda L: ast.ByteToInt(ast.IntToByte(L.opaque('e', I)))),
+              ('int-from-bool-of-int', I, lambda L: ast.ByteToInt(ast.BoolToByte(ast.IntToBool(L.opaque('e', I)))))]
     for nm, t, mk in cases:
         L = Lemma(f'stmt/decl/{nm}/w{w}/{"unchecked" if unchecked else "checked"}', w, unchecked)
         L.functions.update(GEN)
@@ -279,7 +284,7 @@ def run(family, w, unchecked):
 
 def tasks(tier):
     out = []
-    P = ('C01', 'C02', 'C03', 'C04', 'C05', 'C08', 'C10', 'C15', 'C16')
+    P = ('C01', 'C02', 'C03', 'C04', 'C05', 'C08', 'C09', 'C10', 'C15', 'C16')
     for w in ((2,) if tier == 'quick' else (2, 3, 4)):          # w = 8: see DESIGN 16.10
         for unchecked in ((False, True) if tier == 'thorough' else (False,)):
             for fam in FAMILIES:
